@@ -9,6 +9,7 @@ def run(ctx, rep):
                 "intercept on/off: predict vs classes_[decision], probabilities sum to one and are monotone, relabelling "
                 "invariance, one-vs-rest rows (intercept included) vs per-class binary fits")
     est_common.run_classifiers(ctx, rep)
+    est_common.run_plumbing(ctx, rep)
 
 
 def replay(ctx, payload):
